@@ -392,7 +392,7 @@ def judge_one(out, tag, text, res, expectation=None):
     if res["status"] == "crash":
         first = [l for l in res["stderr"].splitlines() if "panicked at" in l]
         site = first[0] if first else "rc=%s" % res["rc"]
-        site = re.sub(r"thread '.*?' ", "", site)
+        site = re.sub(r"thread '.*?' (\(\d+\) )?", "", site)
         out["violations"].append(_vio("c11:crash:" + re.sub(r"[^A-Za-z0-9_./:-]+", "_", site)[:80],
                                       "input %s: the compiler crashed (exit status %s) instead of succeeding or returning an error\n%s" % (tag, res["rc"], res["stderr"][-1200:]),
                                       data, {"stderr.txt": res["stderr"]}))
@@ -496,7 +496,12 @@ def c11_task(task):
             _cnt(out, "layout_variant_pairs")
             if s[0] == "error":
                 _cnt(out, "layout_variant_pairs_on_error_inputs")
-            if sv != s:
+            if vtag == "trailing-blank-lines" and "unexpected end of file" in (s[1], sv[1]):
+                # the end of the input legitimately moves with trailing blank lines
+                s_cmp, sv_cmp = s[:2], sv[:2]
+            else:
+                s_cmp, sv_cmp = s, sv
+            if sv_cmp != s_cmp:
                 # tabs / variants keep lines; messages and lines must be identical
                 out["violations"].append(_vio("c11:layout-dependent:" + vtag,
                                               "input %s: the layout-only variant '%s' changes the outcome: base %s, variant %s\n--- variant stderr ---\n%s" % (name, vtag, s, sv, r["stderr"][:1200]),
